@@ -148,6 +148,7 @@ class Program:
             except SyntaxError as e:
                 raise AnalysisError("cannot parse %s: %s" % (p, e))
             canon.inline_adjacent_temps(tree)
+            canon.mirror_comparisons(tree)
             name = fn[:-3]
             m = ModuleInfo(name, p, src, tree)
             self.modules[name] = m
